@@ -90,15 +90,21 @@ def _grid_points(grids):
     return pts
 
 
-def interpolation(S, sizes, cell):
-    """cubic interpolation weights with x symbolic inside a grid cell: partition of unity, reproduction of quadratics, index layout"""
+def interpolation(S, sizes, cell, cells=None):
+    """cubic interpolation weights with x symbolic inside a grid cell: partition of unity, reproduction of quadratics, index layout;
+    cells: the kind of cell per dimension (default: `cell` in dimension 0, interior elsewhere).  In the first / last cell of a
+    dimension the library snaps that dimension to the nearest grid node (documented boundary treatment)"""
     d = len(sizes)
     grids = [torch.linspace(0.0, 1.0, s) for s in sizes]
     x = torch.zeros(1, d)
+    cells = list(cells) if cells else [cell] + ["interior"] * (d - 1)
+    fracs, lows = [], []
     for i in range(d):
         h = float(grids[i][1] - grids[i][0])
-        c = {"interior": len(grids[i]) // 2, "first": 0, "last": len(grids[i]) - 2}[cell] if i == 0 else len(grids[i]) // 2
-        x[0, i] = float(grids[i][c]) + h * (0.3 + 0.1 * i)
+        c = {"interior": len(grids[i]) // 2, "first": 0, "last": len(grids[i]) - 2}[cells[i]]
+        fr = 0.3 + 0.1 * i + (0.35 if cells[i] == "last" and i % 2 else 0.0)
+        x[0, i] = float(grids[i][c]) + h * fr
+        fracs.append(fr); lows.append(c)
     X = S.sym_tensor(x, "x")
     with S.mode():
         idx, val = Interpolation().interpolate(grids, x)
@@ -106,7 +112,19 @@ def interpolation(S, sizes, cell):
     idx = idx.reshape(-1).tolist()
     pts = _grid_points(grids)
     S.prove_eq(np.array([np.sum(V)], dtype=object), np.array([Sym.const(1.0)], dtype=object), "weights sum to one (%s cell)" % cell)
-    if cell == "interior":
+    if any(c != "interior" for c in cells):
+        # first moments per dimension: an interior dimension reproduces x_i, a boundary dimension is snapped to its nearest node
+        for i in range(d):
+            tot = Sym.const(0.0)
+            for w, k in zip(V, idx):
+                tot = tot + w * Sym.const(pts[k][i])
+            if cells[i] == "interior":
+                want, what = X[0, i], "x_%d" % i
+            else:
+                node = lows[i] + (1 if fracs[i] > 0.5 else 0)
+                want, what = Sym.const(float(grids[i][node])), "the nearest grid node %d of dimension %d" % (node, i)
+            S.prove_eq(np.array([tot], dtype=object), np.array([want], dtype=object), "sum_k w_k g_k[%d] = %s (cells %s)" % (i, what, cells))
+    if all(c == "interior" for c in cells):
         # reproduces monomials x_0^a x_1^b with a, b <= 2 (Keys' cubic convolution is exact on quadratics away from the boundary)
         for powers in itertools.product(range(3), repeat=d):
             tot = Sym.const(0.0)
@@ -572,6 +590,8 @@ def scenarios(tier, seed):
         add("interpolation", sizes=[7], cell=cell)
     add("interpolation", sizes=[6, 7], cell="interior")
     add("interpolation", sizes=[7, 5], cell="interior")
+    add("interpolation", sizes=[6, 7], cell="interior", cells=["interior", "last"])
+    add("interpolation", sizes=[7, 6], cell="last", cells=["last", "first"])
     add("kiss_kernel", sizes=[6], ard=False)
     add("kiss_kernel", sizes=[5, 6], ard=True)
     add("kiss_kernel", sizes=[6, 5], ard=False)
@@ -608,6 +628,9 @@ def scenarios(tier, seed):
         add("kiss_model", fantasy=False, fpv=False, nodes=[2, 3], symx=True)
         add("interpolation", sizes=[5, 6, 5], cell="interior")
         add("interpolation", sizes=[6, 5], cell="first")
+        add("interpolation", sizes=[6, 7], cell="first", cells=["first", "last"])
+        add("interpolation", sizes=[5, 6, 5], cell="interior", cells=["interior", "interior", "last"])
+        add("interpolation", sizes=[7, 7], cell="last", cells=["last", "last"])
         add("kiss_kernel", sizes=[7, 5], ard=True)
         # (tried and dropped - the queries do not finish: kiss_kernel on a 5x6x5 grid with ARD, the SGPR objective with M=2 and
         #  the SGPR prediction with n=3)
